@@ -322,3 +322,163 @@ theorem frame_fromKube (E : Env) (path : Str) (u svc : SUnit) (h : fromKube E pa
     exact so_service (so_handleSetWorkingDirectory _ _ _ _ _ h6)
 
 end Cv
+
+namespace Cv
+open MM
+
+/-- what the .build converter starts from (the mount dependency is added before SourcePath there) -/
+def buildStart (path : Str) (u : SUnit) : SUnit :=
+  if path.isEmpty then addS (defaultDeps (mergeFrom [] u)) "Unit" "RequiresMountsFor" (s "%t/containers")
+  else addS (addS (defaultDeps (mergeFrom [] u)) "Unit" "RequiresMountsFor" (s "%t/containers")) "Unit" "SourcePath" path
+
+theorem entriesOf_buildStart_ne (path : Str) (u : SUnit) (hnd : (u.map Prod.fst).Nodup) (S : Str) (h : S ≠ s "Unit") :
+    entriesOf (buildStart path u) S = entriesOf u S := by
+  have hm : entriesOf (defaultDeps (mergeFrom [] u)) S = entriesOf u S := by
+    rw [entriesOf_defaultDeps_ne _ _ h, entriesOf_mergeFrom [] u hnd]; simp [entriesOf, List.lookup]
+  unfold buildStart
+  split
+  · rw [entriesOf_addS, if_neg h]; exact hm
+  · rw [entriesOf_addS, if_neg h, entriesOf_addS, if_neg h]; exact hm
+
+theorem frame_fromBuild (E : Env) (path : Str) (u svc : SUnit) (h : fromBuild E path u = .ok svc) :
+    SameOutside [s "Unit", s "Service"] (preOf (buildStart path u) (s "Build") (s "X-Build")) svc := by
+  unfold fromBuild at h
+  simp only [bind_ok] at h
+  obtain ⟨_, _, h⟩ := h
+  split at h
+  · exact absurd h (throw_bind_ne_ok _ _ _)
+  · simp only [bind_ok] at h
+    obtain ⟨_, _, _, _, x1, h1, x2, h2, x3, h3, _, _, _, _, s4, h4, hfin⟩ := h
+    simp only [pure, Except.pure, Except.ok.injEq] at hfin
+    subst hfin
+    have e : (renameSection (renameSection
+        (if path.isEmpty then addS (defaultDeps (mergeFrom [] u)) "Unit" "RequiresMountsFor" (s "%t/containers")
+         else addS (addS (defaultDeps (mergeFrom [] u)) "Unit" "RequiresMountsFor" (s "%t/containers")) "Unit" "SourcePath" path)
+        (s "Build") (s "X-Build")) (s "Quadlet") (s "X-Quadlet")) = preOf (buildStart path u) (s "Build") (s "X-Build") := rfl
+    rw [e] at h1
+    refine (so_unit (so_handleNetworks _ _ _ _ _ h1)).trans ?_
+    refine (so_unit (so_handleVolumes _ _ _ _ _ _ h2)).trans ?_
+    refine (so_service (so_handleSetWorkingDirectory _ _ _ _ _ h3)).trans ?_
+    exact (so_service (so_addRawExec _ _ _ _ h4)).trans (so_service (so_oneShot _ _))
+
+end Cv
+
+namespace Cv
+open MM
+
+theorem so_mountTokStep (E : Env) (unitPath : Str) (acc : List Str × SUnit) (t : Str) (r : List Str × SUnit)
+    (h : mountTokStep E unitPath acc t = .ok r) : SameOutside [s "Unit"] acc.2 r.2 := by
+  unfold mountTokStep at h
+  split at h
+  · split at h
+    · split at h
+      · simp at h
+      · rename_i x hx
+        simp at h; subst h
+        exact so_handleStorageSource _ _ _ _ _ _ hx
+    · simp at h; subst h; exact SameOutside.refl _ _
+  · simp at h; subst h; exact SameOutside.refl _ _
+
+theorem so_resolveMount (E : Env) (unitPath : Str) (svc : SUnit) (m : Str) (r : Str × SUnit)
+    (h : resolveMount E unitPath svc m = some (.ok r)) : SameOutside [s "Unit"] svc r.2 := by
+  unfold resolveMount at h
+  split at h
+  · simp at h
+  · simp at h
+  · split at h
+    · simp at h; subst h; exact SameOutside.refl _ _
+    · simp only [Option.some.injEq] at h
+      split at h
+      · simp at h
+      · rename_i x hx
+        simp at h; subst h
+        exact so_foldlM [s "Unit"] _ (so_mountTokStep E unitPath) _ _ _ hx
+
+theorem so_mountsStep (E : Env) (unitPath : Str) (acc : List Str × SUnit) (m : Str) (r : List Str × SUnit)
+    (h : mountsStep E unitPath acc m = .ok r) : SameOutside [s "Unit"] acc.2 r.2 := by
+  unfold mountsStep at h
+  split at h
+  · rename_i x hx
+    simp at h; subst h
+    exact so_resolveMount _ _ _ _ _ hx
+  · simp at h
+  · simp at h
+
+theorem so_handlePod (E : Env) (u : SUnit) (sec : Str) (svc : SUnit) (own : Str) (r : List Str × SUnit × Option (Str × Str))
+    (h : handlePod E u sec svc own = .ok r) : SameOutside [s "Unit"] svc r.2.1 := by
+  unfold handlePod at h
+  split at h
+  · simp at h; subst h; exact SameOutside.refl _ _
+  · split at h
+    · simp at h; subst h; exact SameOutside.refl _ _
+    · split at h
+      · simp at h
+      · split at h
+        · simp at h
+        · simp at h; subst h
+          exact (so_addS _ _ _ _).trans (so_addS _ _ _ _)
+
+theorem so_typeAndNotify (u : SUnit) (sec : Str) (cmd : List Str) (svc : SUnit) (r : List Str × SUnit)
+    (h : typeAndNotify u sec cmd svc = .ok r) : SameOutside [s "Service"] svc r.2 := by
+  unfold typeAndNotify at h
+  simp only at h
+  split at h
+  · split at h
+    · simp at h; subst h; exact SameOutside.refl _ _
+    · split at h
+      · simp at h; subst h; exact (so_setS _ _ _ _).trans (so_setS _ _ _ _)
+      · simp at h
+  · simp at h; subst h; exact (so_setS _ _ _ _).trans (so_setS _ _ _ _)
+
+end Cv
+
+namespace Cv
+open MM
+
+theorem frame_fromContainer (E : Env) (path : Str) (u svc : SUnit) (link : Option (Str × Str))
+    (h : fromContainer E path u = some (.ok (svc, link))) :
+    SameOutside [s "Unit", s "Service"] (preService path u (s "Container") (s "X-Container")) svc := by
+  unfold fromContainer at h
+  simp only at h
+  split at h
+  · simp at h
+  · simp only [Option.some.injEq, bind_ok] at h
+    obtain ⟨self, _, _, _, _, _, h⟩ := h
+    split at h
+    · exact absurd h (throw_bind_ne_ok _ _ _)
+    · split at h
+      · exact absurd h (throw_bind_ne_ok _ _ _)
+      · simp only [bind_ok] at h
+        obtain ⟨x1, h1, s2, h2, s3, h3, s4, h4, x5, h5, x6, h6, _, _, _, _, x7, h7, _, _, x8, h8, x9, h9, s10, h10, hfin⟩ := h
+        simp only [pure, Except.pure, Except.ok.injEq, Prod.mk.injEq] at hfin
+        obtain ⟨rfl, _⟩ := hfin
+        have e : (renameSection (renameSection
+            (if path.isEmpty then defaultDeps (mergeFrom [] u) else addS (defaultDeps (mergeFrom [] u)) "Unit" "SourcePath" path)
+            (s "Container") (s "X-Container")) (s "Quadlet") (s "X-Quadlet"))
+            = preService path u (s "Container") (s "X-Container") := rfl
+        rw [e] at h1
+        have a1 : SameOutside [s "Unit", s "Service"] (preService path u (s "Container") (s "X-Container")) x1.2 := by
+          split at h1
+          · exact so_unit (so_handleImageSource _ _ _ _ h1)
+          · simp [pure, Except.pure] at h1; subst h1; exact SameOutside.refl _ _
+        refine a1.trans ?_
+        refine (so_service (so_addS x1.2 "Service" "Environment" (s "PODMAN_SYSTEMD_UNIT=%n"))).trans ?_
+        refine (so_service (so_killMode _ _ _ h2)).trans ?_
+        refine (so_unit (so_addS s2 "Unit" "RequiresMountsFor" (s "%t/containers"))).trans ?_
+        refine (so_service (so_addRawExec _ _ _ _ h3)).trans ?_
+        refine (so_service (so_addRawExec _ _ _ _ h4)).trans ?_
+        refine (so_service (so_addS s4 "Service" "Delegate" (s "yes"))).trans ?_
+        refine (so_unit (so_handleNetworks _ _ _ _ _ h5)).trans ?_
+        refine (so_service (so_typeAndNotify _ _ _ _ _ h6)).trans ?_
+        have a7 : SameOutside [s "Unit", s "Service"] x6.2
+            (if (lookup u (s "Service") (s "SyslogIdentifier")).isNone then setS x6.2 "Service" "SyslogIdentifier" (s "%N") else x6.2) := by
+          split
+          · exact so_service (so_setS _ _ _ _)
+          · exact SameOutside.refl _ _
+        refine a7.trans ?_
+        refine (so_unit (so_handleVolumes _ _ _ _ _ _ h7)).trans ?_
+        refine (so_unit (so_foldlM [s "Unit"] _ (so_mountsStep E path) _ _ _ h8)).trans ?_
+        refine (so_unit (so_handlePod _ _ _ _ _ _ h9)).trans ?_
+        exact so_service (so_addRawExec _ _ _ _ h10)
+
+end Cv
